@@ -81,6 +81,26 @@ def decode(intro):
             "subscription": (intro.get("subscriptionType") or {}).get("name")}
 
 
+def _type_refs(got):
+    """(where, named type) for every type reference of a decoded introspection result"""
+    def named(r):
+        while isinstance(r, (list, tuple)) and r and r[0] in ("nn", "list"):
+            r = r[1]
+        if isinstance(r, (list, tuple)):
+            return r[-1]
+        return str(r).replace("[", "").replace("]", "").replace("!", "")
+    for n, t in got["types"].items():
+        for f in t.get("fields") or []:
+            yield "%s.%s" % (n, f["name"]), named(f["type"])
+            for a in f.get("args") or []:
+                yield "%s.%s(%s)" % (n, f["name"], a["name"]), named(a["type"])
+        for x in (t.get("interfaces") or []) + (t.get("members") or []) + (t.get("possible") or []):
+            yield "%s members" % n, x
+    for dn, d in got["directives"].items():
+        for a in d["args"]:
+            yield "@%s(%s)" % (dn, a["name"]), named(a["type"])
+
+
 def expected_from_schema(schema):
     want = SS.extract(schema)
     for n, t in want["types"].items():
@@ -210,7 +230,7 @@ def run_intro(schema, config, text, schedule, disable=False, variables=None):
 def check_case(case, ctx=None):
     from py_gql.utilities import introspection_query
     spec = GS.Spec(case["spec"])
-    if case.get("sibling") and case["mode"] == "code":
+    if case.get("sibling") and case["mode"] in ("code", "code-discover"):
         # a sibling schema (same names, rotated enum internals) is introspected first in this process: nothing of it may
         # show up in the answer for `spec`
         sib_schema, _ = H.make_schema(GS.sibling(spec), "code")
@@ -237,6 +257,16 @@ def check_case(case, ctx=None):
             vios.append(("C15/introspection-query-has-errors", "config=%s: %r" % (config, resp["errors"][:2])))
             continue
         got = decode(resp["data"]["__schema"])
+        # "every type": what was declared (the spec), not only what the schema object happened to collect - every type of the spec
+        # was either handed over or hangs on something that was
+        for n in eff["types"]:
+            if n not in got["types"]:
+                vios.append(("C15/introspection-misses-declared-type/%s" % eff["types"][n]["kind"], "config=%s mode=%s: %s is not among __schema.types" % (config, case["mode"], n)))
+        described = set(got["types"]) | set(GS.BUILTIN_SCALARS)
+        for where, ref in _type_refs(got):
+            if ref not in described and "<missing" not in ref:
+                vios.append(("C15/introspection-refers-to-a-type-it-does-not-describe", "config=%s: %s -> %s" % (config, where, ref)))
+                break
         check_defaults(schema, got, want, vios)
         for d in SS.diff(got, want)[:6]:
             if "'<skip>' !=" in d:
@@ -337,8 +367,11 @@ def cases(draw, thorough=False):
         pool = [l for l in ALL_LOCATIONS if l != "VARIABLE_DEFINITION" or draw(st.integers(0, 3)) == 0]
         locs = draw(st.lists(st.sampled_from(pool), min_size=1, max_size=6, unique=True))
     spec["directives"] = [{"name": "cd", "locations": locs, "desc": draw(GS._DESC),
-                           "args": [{"name": "n", "type": "Int", "default": 1, "desc": "count"}, {"name": "s", "type": "[String!]", "default": ["a", "q\"uote", "back\\slash", "line\nbreak"]}]}]
-    mode = draw(st.sampled_from(["code", "sdl"]))
+                           "args": [{"name": "n", "type": "Int", "default": 1, "desc": "count"}, {"name": "s", "type": "[String!]", "default": ["a", "q\"uote", "back\\slash", "line\nbreak"]}]
+                           # the generated directive's arguments of schema-defined types (their types may hang on nothing else)
+                           + [a for d in spec.get("directives", []) for a in d.get("args", []) if GS.named(GS.parse_t(a["type"])) not in GS.BUILTIN_SCALARS]}]
+    # code-discover: the python API with only those types handed over that the library cannot find by itself
+    mode = draw(st.sampled_from(["code", "sdl", "code-discover"]))
     eff = H.sdl_view(spec) if mode == "sdl" else spec
     configs = ["blocking-executor"]
     if thorough or draw(st.integers(0, 5)) == 0:
